@@ -392,10 +392,31 @@ impl Pcap {
         })
     }
 
+    /// Start a new pcap stream whose global header is a copy of the one
+    /// of 'other' (same magic, version, time zone, snaplen and link type)
+    pub fn new_like(file: Rc<FileHandle>, other: &Pcap) -> io::Result<Self> {
+        let global_header = {
+            let h = other.header.borrow();
+            PcapGlobalHeader {
+                magic_number: h.magic_number,
+                version_major: h.version_major,
+                version_minor: h.version_minor,
+                thiszone: h.thiszone,
+                sigfigs: h.sigfigs,
+                snaplen: h.snaplen,
+                linktype: h.linktype,
+            }
+        };
+        Self::new_with_header(file, global_header)
+    }
+
     /// Write global header to a newly created pcap file
     pub fn new_with_magic(file: Rc<FileHandle>, magic: u32) -> io::Result<Self> {
+        Self::new_with_header(file, PcapGlobalHeader::new(magic))
+    }
+
+    fn new_with_header(file: Rc<FileHandle>, global_header: PcapGlobalHeader) -> io::Result<Self> {
         // Write the pcap global header to the file
-        let global_header = PcapGlobalHeader::new(magic);
         let bytes: Vec<u8> = (&global_header).into();
         match file.as_ref() {
             FileHandle::Writer(writer) => {
